@@ -120,6 +120,13 @@ func (r *Run) NextID(kind string) int {
 	return r.objSeq[kind]
 }
 
+// LastID returns the number most recently handed out for kind (0 if none).
+func (r *Run) LastID(kind string) int {
+	r.mu.Lock()
+	defer r.mu.Unlock()
+	return r.objSeq[kind]
+}
+
 // NameGoroutine associates the calling goroutine with a deterministic label.
 func (r *Run) NameGoroutine(name string) {
 	g := Goid()
